@@ -364,12 +364,16 @@ def d22Rels : List (String × String) := [("rId1", "worksheets/sheet1.xml")]
     `state`, default visible), the defined names in order with their concatenated text, and
     `date1904 ∈ {"1","true"}` — and an `<extLst>` at the end of the workbook element changes nothing of this,
     whatever it contains (elements of any namespace and local name, text, comments; only a nested element with
-    the list's own qualified name is excluded): after fix 4dbff9e its subtree is skipped. -/
+    the list's own qualified name is excluded): after fix 4dbff9e its subtree is skipped. Between these children
+    (five positions, `Gaps`) any inert events may occur: start tags whose local name is not one of the four the
+    reader interprets (`fileVersion`, `bookViews`, `calcPr`, `mc:AlternateContent`, `externalReferences`,
+    `pivotCaches`, … with any attributes and nesting), end tags other than the workbook's, text, comments, PIs. -/
 theorem sheets_in_order_xlsx (rels : List (String × String)) (q : String → String) (hq : QOk q)
     (ridKey : String) (hk : ridKeyOk ridKey) (pr : Option (List (String × String)))
     (sheets : List XSheet) (hs : ∀ s ∈ sheets, s.ok rels) (names : List (String × List (Bool × String)))
-    (ext : Option (List Ev)) (hext : ∀ body, ext = some body → ExtOk (q "extLst") body) :
-    readWorkbookXlsx rels (workbookEvents q ridKey pr sheets names ext) =
+    (ext : Option (List Ev)) (hext : ∀ body, ext = some body → ExtOk (q "extLst") body)
+    (g : Gaps) (hg : g.ok) :
+    readWorkbookXlsx rels (workbookEvents q ridKey pr sheets names ext g) =
       .ok (⟨sheets.map (fun s => ⟨s.name, s.kind, s.vis⟩), names.map dnValue, (pr.map date1904Attr).getD false⟩,
            sheets.map (fun s => xlsxPath s.target.toList)) := by
   unfold readWorkbookXlsx xlsxLoop workbookEvents
@@ -407,10 +411,13 @@ theorem sheets_in_order_xlsx (rels : List (String × String)) (q : String → St
       rw [loop_start_ext _ _ rfl _ _ _ _ _ _ (hq "extLst")]
       rw [loop_skip_body _ _ (q "extLst") 0 body (hext body hE) _ _ rfl, loop_skip_end]
   have h0 : ({} : XlsxSt) = ⟨[], [], false, none, none⟩ := rfl
-  rw [h0, hpr, e1 "sheets" (by decide) (by decide) (by decide) (by decide) _ _ _ rfl rfl,
-    loop_sheets _ _ q hq ridKey hk sheets hs, e4 "sheets" (by decide) _ _ rfl rfl,
+  obtain ⟨hg0, hg1, hg2, hg3, hg4⟩ := hg
+  rw [h0, loop_inert rels g.g0 hg0 _ _ rfl rfl, hpr, loop_inert rels g.g1 hg1 _ _ rfl rfl,
+    e1 "sheets" (by decide) (by decide) (by decide) (by decide) _ _ _ rfl rfl,
+    loop_sheets _ _ q hq ridKey hk sheets hs, e4 "sheets" (by decide) _ _ rfl rfl, loop_inert rels g.g2 hg2 _ _ rfl rfl,
     e1 "definedNames" (by decide) (by decide) (by decide) (by decide) _ _ _ rfl rfl,
-    loop_names _ _ q hq (by rw [pm_q q hq]; decide) rfl, e4 "definedNames" (by decide) _ _ rfl rfl, hx,
+    loop_names _ _ q hq (by rw [pm_q q hq]; decide) rfl, e4 "definedNames" (by decide) _ _ rfl rfl,
+    loop_inert rels g.g3 hg3 _ _ rfl rfl, hx, loop_inert rels g.g4 hg4 _ _ rfl rfl,
     loop_end_workbook _ _ _ _ _ rfl rfl (hq "workbook")]
   simp [xlsxFinish, xsheetDecoded, List.map_map, Function.comp_def]
 
@@ -435,7 +442,7 @@ theorem defined_names_in_order_xlsx (rels : List (String × String)) (q : String
     (readWorkbookXlsx rels (workbookEvents q ridKey pr sheets names)).isOk = true ∧
     ∀ wb p, readWorkbookXlsx rels (workbookEvents q ridKey pr sheets names) = .ok (wb, p) →
       wb.names = names.map (fun n => (n.1, n.2.foldl (fun acc c => acc ++ c.2) "")) := by
-  rw [sheets_in_order_xlsx rels q hq ridKey hk pr sheets hs names none (by intro _ h; cases h)]
+  rw [sheets_in_order_xlsx rels q hq ridKey hk pr sheets hs names none (by intro _ h; cases h) {} gaps_ok_empty]
   refine ⟨rfl, ?_⟩
   intro wb p h
   cases h
@@ -458,10 +465,10 @@ theorem c16d_witness :
 theorem date1904_flag_xlsx (rels : List (String × String)) (q : String → String) (hq : QOk q)
     (ridKey : String) (hk : ridKeyOk ridKey) (v : String)
     (sheets : List XSheet) (hs : ∀ s ∈ sheets, s.ok rels) (names : List (String × List (Bool × String)))
-    (ext : Option (List Ev)) (hext : ∀ body, ext = some body → ExtOk (q "extLst") body) :
-    ∀ wb p, readWorkbookXlsx rels (workbookEvents q ridKey (some [("date1904", v)]) sheets names ext) = .ok (wb, p) →
+    (ext : Option (List Ev)) (hext : ∀ body, ext = some body → ExtOk (q "extLst") body) (g : Gaps) (hg : g.ok) :
+    ∀ wb p, readWorkbookXlsx rels (workbookEvents q ridKey (some [("date1904", v)]) sheets names ext g) = .ok (wb, p) →
       wb.is1904 = (v = "1" || v = "true") := by
-  rw [sheets_in_order_xlsx rels q hq ridKey hk _ sheets hs names ext hext]
+  rw [sheets_in_order_xlsx rels q hq ridKey hk _ sheets hs names ext hext g hg]
   intro wb p h
   cases h
   simp [date1904Attr, List.lookup]
@@ -479,6 +486,32 @@ example : ExtOk "extLst" x15Ext := by
   simp [x15Ext] at he
   rcases he with rfl | rfl | rfl | rfl | rfl | rfl | rfl | rfl | rfl | rfl | rfl <;> simp
 
+/-- the inert content Excel really writes around the interpreted children meets `Gaps.ok` … -/
+def excelGaps : Gaps :=
+  { g0 := [.start "fileVersion" [("appName", "xl")], .end_ "fileVersion"],
+    g1 := [.start "mc:AlternateContent" [], .start "mc:Choice" [("Requires", "x15")], .start "x15ac:absPath" [("url", "C:\\")],
+           .end_ "x15ac:absPath", .end_ "mc:Choice", .end_ "mc:AlternateContent",
+           .start "bookViews" [], .start "workbookView" [("xWindow", "0")], .end_ "workbookView", .end_ "bookViews"],
+    g2 := [.other, .start "externalReferences" [], .start "externalReference" [("r:id", "rId9")], .end_ "externalReference",
+           .end_ "externalReferences"],
+    g3 := [.start "calcPr" [("calcId", "191029")], .end_ "calcPr", .start "pivotCaches" [], .text "\n", .end_ "pivotCaches"],
+    g4 := [.other] }
+
+example : excelGaps.ok := by
+  refine ⟨?_, ?_, ?_, ?_, ?_⟩ <;> intro e he <;> simp [excelGaps] at he <;>
+    (first | (rcases he with rfl | rfl | rfl | rfl | rfl | rfl | rfl | rfl | rfl | rfl <;> decide)
+           | (rcases he with rfl | rfl | rfl | rfl | rfl <;> decide)
+           | (rcases he with rfl | rfl <;> decide)
+           | (subst he; decide))
+
+/-- … and the full workbook with them reads as declared (concrete run of the model) -/
+example :
+    readWorkbookXlsx d22Rels
+      (workbookEvents id "r:id" (some [("date1904", "1")]) [⟨"S1", "1", .hidden, true, "rId1", "worksheets/sheet1.xml", .workSheet⟩]
+        [("N", [(false, "S1!$A$1")])] (some x15Ext) excelGaps) =
+      .ok (⟨[⟨"S1", .workSheet, .hidden⟩], [("N", "S1!$A$1")], true⟩, ["xl/worksheets/sheet1.xml".toList]) := by
+  decide
+
 /-- finding C16-b as a checked statement. On a 1904-system workbook that carries `x15Ext`: the reader between the
     D22 fix and 4dbff9e (local-name match, flag reset, no skipping) opens the workbook, loses the flag, lists the
     function description as a defined name — and fails on the foreign `sheet`; restricted to the element Excel
@@ -494,25 +527,28 @@ theorem c16b_witness :
 
 /-! ## ods: `content.xml` (event level; quick-xml trusted) -/
 
-/-- **ods: sheets and named ranges in document order.** -/
+/-- **ods: sheets and named ranges in document order**, whatever inert elements (`InertO`: any start tag the reader
+    does not interpret, any end tag, text, comments, PIs) sit at the five positions between the interpreted parts. -/
 theorem sheets_in_order_ods (styles : List (String × Option Bool)) (tables : List OTable) (ht : ∀ t ∈ tables, t.ok)
-    (names : List (String × String)) :
-    parseContentOds (contentEvents styles tables names) =
+    (names : List (String × String)) (g : Gaps) (hg : g.okO) :
+    parseContentOds (contentEvents styles tables names g) =
       .ok ⟨tables.map (fun t => ⟨t.name, .workSheet, tableVis styles t⟩), names, false⟩ := by
   unfold parseContentOds contentEvents
+  obtain ⟨hg0, hg1, hg2, hg3, hg4⟩ := hg
   have h0 : ({} : OdsSt) = ⟨[], [], [], none, .top⟩ := rfl
   rw [h0]
-  rw [ods_top_start_skip _ _ _ _ _ _ _ (by decide) (by decide) (by decide) (by decide)]
-  rw [ods_top_start_skip _ _ _ _ _ _ _ (by decide) (by decide) (by decide) (by decide)]
+  rw [ods_top_start_skip _ _ _ _ _ _ _ (by decide) (by decide) (by decide) (by decide), ods_inert g.g0 hg0]
+  rw [ods_top_start_skip _ _ _ _ _ _ _ (by decide) (by decide) (by decide) (by decide), ods_inert g.g1 hg1]
   obtain ⟨sn', hst⟩ := ods_styles styles
-    (Ev.end_ "office:automatic-styles" :: Ev.start "office:body" [] :: Ev.start "office:spreadsheet" [] ::
-      (tables.flatMap tableEvents ++ (Ev.start "table:named-expressions" [] :: (names.flatMap namedRangeEvents ++
-        [Ev.end_ "table:named-expressions", Ev.end_ "office:spreadsheet", Ev.end_ "office:body", Ev.end_ "office:document-content"]))))
+    (Ev.end_ "office:automatic-styles" :: Ev.start "office:body" [] :: Ev.start "office:spreadsheet" [] :: (g.g2 ++
+      (tables.flatMap tableEvents ++ (g.g3 ++ (Ev.start "table:named-expressions" [] :: (names.flatMap namedRangeEvents ++
+        (Ev.end_ "table:named-expressions" :: (g.g4 ++
+          [Ev.end_ "office:spreadsheet", Ev.end_ "office:body", Ev.end_ "office:document-content"]))))))))
     [] [] [] none
   rw [hst, List.append_nil, ods_top_end]
   rw [ods_top_start_skip _ _ _ _ _ _ _ (by decide) (by decide) (by decide) (by decide)]
-  rw [ods_top_start_skip _ _ _ _ _ _ _ (by decide) (by decide) (by decide) (by decide)]
-  rw [ods_tables styles tables ht]
+  rw [ods_top_start_skip _ _ _ _ _ _ _ (by decide) (by decide) (by decide) (by decide), ods_inert g.g2 hg2]
+  rw [ods_tables styles tables ht, ods_inert g.g3 hg3]
   -- <table:named-expressions>
   rw [odsLoop]
   have h1 : ("table:named-expressions" : String) ≠ "style:style" := by decide
@@ -523,7 +559,7 @@ theorem sheets_in_order_ods (styles : List (String × Option Bool)) (tables : Li
   rw [odsLoop]
   have h4 : isNamedElem "table:named-expressions" = false := by decide
   simp only [h4, if_true, Bool.false_eq_true, if_false, List.nil_append]
-  rw [ods_top_end, ods_top_end, ods_top_end]
+  rw [ods_inert g.g4 hg4, ods_top_end, ods_top_end, ods_top_end]
   simp [odsLoop]
 
 /-- satisfiable: two tables sharing a hidden style, one without style, a redefined style name (the later
@@ -578,12 +614,12 @@ theorem date1904_reaches_cells_xlsb (pf : Bytes → List Text → List (Text × 
 theorem date1904_reaches_cells_xlsx (rels : List (String × String)) (q : String → String) (hq : QOk q)
     (ridKey : String) (hk : ridKeyOk ridKey) (d : String)
     (sheets : List XSheet) (hs : ∀ s ∈ sheets, s.ok rels) (names : List (String × List (Bool × String)))
-    (ext : Option (List Ev)) (hext : ∀ body, ext = some body → ExtOk (q "extLst") body)
+    (ext : Option (List Ev)) (hext : ∀ body, ext = some body → ExtOk (q "extLst") body) (g : Gaps) (hg : g.ok)
     (wb : Workbook String) (p : List (List Char))
-    (h : readWorkbookXlsx rels (workbookEvents q ridKey (some [("date1904", d)]) sheets names ext) = .ok (wb, p))
+    (h : readWorkbookXlsx rels (workbookEvents q ridKey (some [("date1904", d)]) sheets names ext g) = .ok (wb, p))
     (fmt : Option CellFormat) (hf : fmt = some .dateTime ∨ fmt = some .timeDelta) (v : UInt64) (i : Int) :
     flagOf (floatCell wb fmt v) = some (d = "1" || d = "true") ∧ flagOf (intCell wb fmt i) = some (d = "1" || d = "true") := by
-  rw [← date1904_flag_xlsx rels q hq ridKey hk d sheets hs names ext hext wb p h]
+  rw [← date1904_flag_xlsx rels q hq ridKey hk d sheets hs names ext hext g hg wb p h]
   exact (date1904_reaches_cells wb fmt v i).1 hf
 
 /-! ## xlsx: the date-system flag under a namespace prefix (ledger D22) -/
